@@ -24,7 +24,7 @@ func init() {
 	core.Register(&core.Property{
 		ID:         "C17",
 		Exhaustive: true,
-		Rule:       "exhaustive: every evaluate-option list of length 0..4 over {valid System value, valid FHIR element, valid collection, duplicate name, predefined names context/ucum, unsupported type, unsupported type nested in a collection, collection nested in a collection, nil, OverrideTime} in every order, and every compile-option list of length 0..3 (thorough: 4) over {well-typed function, typed-argument function, wrong first parameter, wrong results, variadic, zero-argument, existing built-in name, duplicate custom name, non-function, WithExperimentalFuncs, Permissive} in every order; with an instrumented custom function that counts its invocations and records what it received; programs referencing each variable at the root, inside function arguments and inside where/select criteria, and repeatedly around filters / sub-setting of the same variable; nested and repeated invocations of the instrumented function. distinct_nontrivial = distinct option lists containing at least one failing option or two interacting options",
+		Rule:       "exhaustive: every evaluate-option list of length 0..4 over {valid System value, valid FHIR element, valid collection, duplicate name, predefined names context/ucum, unsupported type, unsupported type nested in a collection, collection nested in a collection, nil, OverrideTime} in every order, and every compile-option list of length 0..3 (thorough: 4) over {well-typed function, typed-argument function, wrong first parameter, wrong results, variadic, zero-argument, existing built-in name, duplicate custom name, non-function, WithExperimentalFuncs, Permissive} in every order; with an instrumented custom function that counts its invocations and records what it received; programs referencing each variable at the root, inside function arguments and inside where/select criteria, and repeatedly around filters / sub-setting of the same variable; nested and repeated invocations of the instrumented function. every Evaluate* entry point, reused option objects, interface-typed parameters, %-prefixed names, unknown variables and failing functions on the non-deciding side, option errors independent of the source text, every table name refused by AddFunction; distinct_nontrivial = distinct option lists containing at least one failing option or two interacting options",
 		Assumptions: []string{"when several options fail, the returned error must match at least one of the failing options' sentinel errors",
 			"variadic custom functions are outside the 'fixed parameter list' contract: only totality is required"},
 		Run:    runC17,
